@@ -4,6 +4,8 @@ import (
 	"bytes"
 	"encoding/json"
 	"fmt"
+	tx "github.com/MinterTeam/minter-go-node/coreV2/transaction"
+	"math/rand"
 	"os"
 )
 
@@ -233,9 +235,9 @@ func (m *MonRestart) Finish(s *Sim) {
 func init() {
 	Register(&CheckDef{
 		ID: "C09", Level: "exploration",
-		Rule: "one case = one generated history executed by instance A (never stopped) and instance B (goleveldb) which is closed and re-created from disk at a seed-chosen set of block boundaries (single, double, and every-block restarts; around payouts, period starts, price updates, version votes, pruning); compared per height: all responses, validator updates, max gas, app hash; at every restart point and at the end: Info, emission, versions, validators record, reward-price record, events of the last heights, live export and from-disk export; one evaluation = one restart point fully compared; distinct = (number of restarts, kind of the block before the restart)",
+		Rule:        "one case = one generated history executed by instance A (never stopped) and instance B (goleveldb) which is closed and re-created from disk at a seed-chosen set of block boundaries (single, double, and every-block restarts; around payouts, period starts, price updates, version votes, pruning); compared per height: all responses, validator updates, max gas, app hash; at every restart point and at the end: Info, emission, versions, validators record, reward-price record, events of the last heights, live export and from-disk export; one evaluation = one restart point fully compared; distinct = (number of restarts, kind of the block before the restart)",
 		Assumptions: []string{"a clean stop (DB handles closed) at a block boundary; crash points are C10's business", "chains start at initial height > 1 (see DESIGN.md on initial height 1)"},
-		Quick: 36, Thorough: 360, MinEval: 150, MinDistinct: 8, MaxWorkers: 12,
+		Quick:       36, Thorough: 360, MinEval: 150, MinDistinct: 8, MaxWorkers: 12,
 		Run: func(ctx *WorkCtx, idx int) {
 			r := Rng(ctx.Seed, "C09", idx)
 			sc := StdScenario(idx, r, 90)
@@ -261,12 +263,27 @@ func init() {
 				mr.Restarts[b] = 1
 				mr.Restarts[b+1] = 2
 			}
+			grace := idx%9 == 4
+			if grace {
+				// a network update is voted in at H = first+128 (its grace period H..H+120 lies beyond the genesis one), restarts follow,
+				// then a validator stays away until it crosses the absence limit inside that grace period (lead: added after seeds
+				// C09-m3 / C29-m3: what a restarted node knows about grace periods decides between "switched off" and "jailed")
+				sc.Blocks = 180
+				mr.Restarts = map[int64]int{first + 131: 1, first + 150: 1}
+				if r.Intn(2) == 0 {
+					mr.Restarts[first+129] = 2
+				}
+			}
 			s, d := sc.Build("C09", ctx.Seed, idx, r, mr)
 			d.MaxTxs = 8
 			d.PTimeJump = 0.06 // reach the reward price window
 			d.G.SetWeight(TxT(0x21), 2)
 			d.G.SetWeight(TxT(0x20), 2)
-			d.Run(sc.Blocks)
+			if grace {
+				graceHistory(ctx, s, d, first, sc.Blocks, first+133, (idx/9)%3 != 2, r)
+			} else {
+				d.Run(sc.Blocks)
+			}
 			ctx.Res.Count("blocks", s.H-s.W.InitialHeight+1)
 			ctx.Res.Count("restarts", int64(mr.done))
 			ctx.Collect(s, idx)
@@ -276,4 +293,54 @@ func init() {
 			}
 		},
 	})
+}
+
+// graceHistory drives a history in which all validators vote a network update in at H = first+128 and one validator stays away
+// from height absentAt on (40 blocks), so that it crosses the absence limit inside the update's grace period H..H+120 and
+// outside the genesis one. Used by C09 (restarts after H) and C29 (restore after H).
+func graceHistory(ctx *WorkCtx, s *Sim, d *Driver, first int64, blocks int, absentAt int64, vote bool, r *rand.Rand) {
+	d.MaxTxs = 2
+	d.PByz, d.PAbsent, d.PAbsentRun = 0, 0, 0
+	H := uint64(first + 128)
+	for b := 0; b < blocks && !s.Dead && !s.Stopped; b++ {
+		h := s.H + 1
+		var aimed []*draft
+		if vote && (h == first+100 || h == first+104) {
+			for _, pk := range s.ValSetAt(h).Sorted() {
+				if k := s.W.ValOwner[pk]; k != nil {
+					snd := Senderish{K: k}
+					aimed = append(aimed, &draft{t: tx.TypeVoteUpdate, kind: "valid", note: "aimed-update-vote", sender: &snd, price1: true,
+						data: tx.VoteUpdateDataV230{Version: "v330", PubKey: pk, Height: H}})
+				}
+			}
+		}
+		if h == absentAt {
+			if vs := s.ValSetAt(h).Sorted(); len(vs) > 1 {
+				d.AbsentRun[vs[r.Intn(len(vs))]] = h + 40
+				ctx.Res.Seen(fmt.Sprintf("validator absent beyond the limit more than 120 blocks after genesis (update voted in: %v)", vote))
+			}
+		}
+		req := d.NextReq()
+		n := len(aimed) + d.R.Intn(d.MaxTxs+1)
+		s.RunBlock(req, nil, func(i int) ([]byte, TxMeta, bool) {
+			if i > 0 {
+				res := s.CurRes.Deliver[i-1]
+				d.G.Learn(&s.Metas[i-1], res.Code, Tags(&res))
+			}
+			if i >= n {
+				return nil, TxMeta{}, false
+			}
+			if i < len(aimed) {
+				bz, mt := d.G.Envelope(aimed[i])
+				return bz, mt, true
+			}
+			bz, mt := d.G.Next()
+			return bz, mt, true
+		})
+	}
+	for _, v := range s.N.App.UpdateVersions() {
+		if v.Height == H {
+			ctx.Res.Count("voted_updates_in_force", 1)
+		}
+	}
 }
